@@ -486,11 +486,9 @@ theorem pullLoop_clean : ∀ (fuel : Nat) (k : Consumer) (lim : Option Int) (con
               simp only at hm; subst hm
               simp [outcomeOf, castRes, hpos, prepend]
 
-/-- a provider left over from an earlier materialisation (`cp.currProviderFunc` is never reset) can only exist when the
-    outer stream is not empty — so `cp.open` will overwrite it -/
-def StaleOK (c : Obj) : Prop := c.cur.isSome → outerDen c.ops c.xs ≠ []
-
-theorem openC_clean (c : Obj) {w : World} (h : w.Clean) (hs : StaleOK c) :
+/-- the lifecycle Open in a clean world, from ANY state of the operator object (`cp.open` forgets a provider left over from
+    an earlier materialisation) -/
+theorem openC_clean (c : Obj) {w : World} (h : w.Clean) :
     (openC c w).2.2.Clean ∧
     (((openC c w).1 = .val () ∧ WF (openC c w).2.1 ∧ rem (openC c w).2.1 = flatSpec c.g (outerDen c.ops c.xs) ∧
         (openC c w).2.1.rest.length ≤ c.xs.length) ∨
@@ -502,8 +500,8 @@ theorem openC_clean (c : Obj) {w : World} (h : w.Clean) (hs : StaleOK c) :
   simp only at ho
   obtain ⟨rfl, hc1⟩ := ho
   simp only []
-  have hp := pullOuter_clean { c with rest := c.xs, outerOpen := true } hc1
-  generalize pullOuter { c with rest := c.xs, outerOpen := true } w1 = z at *
+  have hp := pullOuter_clean { c with cur := none, rest := c.xs, outerOpen := true } hc1
+  generalize pullOuter { c with cur := none, rest := c.xs, outerOpen := true } w1 = z at *
   obtain ⟨res2, c2, w2⟩ := z
   simp only at hp
   obtain ⟨hc2, hm2⟩ := hp
@@ -511,22 +509,18 @@ theorem openC_clean (c : Obj) {w : World} (h : w.Clean) (hs : StaleOK c) :
   | none =>
       rw [hn] at hm2; simp only at hm2; obtain ⟨rfl, rfl⟩ := hm2
       have hden := nextOuter_none hn
-      have hcur : c.cur = none := by
-        cases hcc : c.cur with
-        | none => rfl
-        | some s => exact absurd hden (hs (by simp [hcc]))
       simp only []
       refine ⟨hc2, Or.inl ⟨trivial, ?_, ?_, ?_⟩⟩
-      · intro s hs'; simp [hcur] at hs'
-      · simp [rem, hcur, hden, flatSpec]
+      · intro s hs'; simp at hs'
+      · simp [rem, hden, flatSpec]
       · simp
   | some p =>
       obtain ⟨v, rest'⟩ := p
       rw [hn] at hm2; simp only at hm2; obtain ⟨rfl, rfl⟩ := hm2
       obtain ⟨hden, hlen⟩ := nextOuter_some hn
-      have ho := openNext_clean { c with rest := rest', outerOpen := true } (c.g v) hc2
+      have ho := openNext_clean { c with cur := none, rest := rest', outerOpen := true } (c.g v) hc2
       simp only []
-      generalize openNext { c with rest := rest', outerOpen := true } (c.g v) w2 = u at *
+      generalize openNext { c with cur := none, rest := rest', outerOpen := true } (c.g v) w2 = u at *
       obtain ⟨res4, c4, w4⟩ := u
       simp only at ho
       obtain ⟨hc4, hm4⟩ := ho
@@ -553,7 +547,7 @@ def fuelNeed (c : Obj) : Nat := (flatSpec c.g (outerDen c.ops c.xs)).1.length + 
 
 /-- **fault-free materialisation = list-level meaning**, with an explicit fuel bound -/
 theorem consume_clean (fuel : Nat) (k : Consumer) (lim : Option Int) (c : Obj) (w : World)
-    (h : w.Clean) (hs : StaleOK c) (hf : fuelNeed c ≤ fuel) :
+    (h : w.Clean) (hf : fuelNeed c ≤ fuel) :
     (Model.PipeDyn.consume fuel k lim c w).1 = specOutcome lim (flatSpec c.g (outerDen c.ops c.xs)) := by
   simp only [Model.PipeDyn.consume]
   by_cases hoff : limOff lim
@@ -565,7 +559,7 @@ theorem consume_clean (fuel : Nat) (k : Consumer) (lim : Option Int) (c : Obj) (
       have : n.toNat = 0 := by omega
       simp [specOutcome, this]
   · simp only [hoff]
-    have ho := openC_clean c h hs
+    have ho := openC_clean c h
     generalize openC c w = x at *
     obtain ⟨res, c1, w1⟩ := x
     simp only at ho
